@@ -260,3 +260,40 @@ def escape_literals():
             for q in ("'", '"'):
                 out.append('x = %s%s%s%s\n' % (p, q, e, q))
     return out
+
+
+# lexemes of spec FStringB (specs/FStringB.tla) and their rendering
+FSTRINGB_LEX = {'F': 'f', 'QS': "'", 'QD': '"', 'X': 't', 'T': 'a', 'LB': '{', 'RB': '}', 'CO': ':', 'BA': '!', 'O': '(',
+                'C': ')', 'W': ' '}
+
+
+def fstringb_valid(ls):
+    for a, b in zip(ls, ls[1:]):
+        if a in 'FXT' and b in 'FXT':
+            return False
+    for a, b, c in zip(ls, ls[1:], ls[2:]):
+        if a in ('QS', 'QD') and a == b == c:
+            return False
+    return True
+
+
+def fstringb_lines(rng, n, maxlen=10):
+    """n random 1-3 line texts over the FStringB lexemes (most lines start an f-string): nested and unterminated
+    f-strings of both quote kinds, braces, format specs - deeper than the exhaustive f-string enumeration reaches"""
+    L = sorted(FSTRINGB_LEX)
+    out = []
+    while len(out) < n:
+        lines = []
+        for _ in range(rng.choice([1, 1, 2, 3])):
+            ln = [rng.choice(L) for _ in range(rng.randrange(0, maxlen))]
+            if rng.random() < .7:
+                ln = ['F', rng.choice(['QS', 'QD'])] + ln
+            lines.append(ln)
+        if all(fstringb_valid(ln) for ln in lines):
+            out.append(lines)
+    return out
+
+
+def fstringb_text(lines, final_newline=True):
+    t = '\n'.join(''.join(FSTRINGB_LEX[x] for x in ln) for ln in lines)
+    return t + ('\n' if final_newline else '')
